@@ -35,5 +35,7 @@ detail = f'f={f} fg={fg} fgh={fgh} calls={calls}'
 
 def extra(tier, seed):
     from pyvc.bounded import run_native
-    return [run_native('C07:bounded:estimation', 'c07_estimation.py', [tier, str(seed)],
+    return [run_native('C07:bounded:bounds-handover', 'c07_handover.py', [],
+                       bound='4 bound-supporting algorithms x 6 bound lists mixing None / 0 / negative / positive / one- and two-sided entries; underlying optimiser spied'),
+            run_native('C07:bounded:estimation', 'c07_estimation.py', [tier, str(seed)],
                        bound='see the harness bound string: generated concave logit problems x bound configurations x 3 starts x 8 algorithms', timeout=1500)]
